@@ -287,6 +287,12 @@ def numLt (a b : Number F) : Bool :=
   | some .lt => true
   | _ => false
 
+/-- `a > b` (`partial_cmp == Some(Greater)`) -/
+def numGt (a b : Number F) : Bool :=
+  match Number.partialCmp fo a b with
+  | some .gt => true
+  | _ => false
+
 /-- the counting loops of casting.rs: `while count <= end` (`strict = false`) or `while count < end`
 (`strict = true`) with `count = count.increment()?` after every item, cut off after `fuel` items.
 The flag reports whether the loop condition still held at the cut. -/
@@ -374,7 +380,7 @@ def concatWindow (s e : Number F) : List (Val F) → Nat → List (Val F)
   | [], _ => []
   | x :: xs, k =>
     if numLt fo (.int k) s then concatWindow s e xs (k + 1)
-    else if numLt fo e (.int k) then []
+    else if numGt fo (.int k) e then []
     else x :: concatWindow s e xs (k + 1)
 
 /-- the `(Range, List)` loop after /repo 5455df2: `while added < len && count <= end`, `count` incremented only
